@@ -53,7 +53,7 @@ PROPS['C15'] = {
     'level_note': 'relative to the VC generator, go/ssa, the SMT solvers, the trusted model of fredericlemoine/bitset (Clone returns a fresh object with equal contents)',
     'packages': ['./tree', './hashmap'],
     'functions': ['(*tree.Tree).CopyNode', '(*tree.Tree).CopyEdge',
-                  ('(*tree.Tree).removeSingleNodesRecur', {'match': [r'^callsite', r'^inv']}),
+                  ('(*tree.Tree).removeSingleNodesRecur', {'match': [r'^callsite', r'^inv', r'^store']}),
                   '(*tree.Node).ParentEdge', '(*tree.Node).Parent', '(*tree.Tree).GraftTreeOnTip', '(*tree.Tree).InsertIdenticalTip',
                   ('(*tree.Tree).copyTreeRecur', {'match': [r'^callsite']}), ('(*tree.Tree).Clone', {'match': [r'^callsite', r'^post']}),
                   ('(*tree.Tree).SubTree', {'match': [r'^callsite', r'^post']}), ('(*tree.Tree).Merge', {'match': [r'^callsite', r'^post', r'^inv']})],
@@ -302,7 +302,7 @@ PROPS['C03'] = {
                   ('(*tree.Tree).internalEdgesRecur', {'match': [r'^post', r'^inv']}),
                   ('(*tree.Tree).InternalEdges', {'match': [r'^post', r'^inv']}),
                   '(*tree.Tree).RemoveEdges', '(*tree.Tree).unconnectNode',
-                  ('(*tree.Tree).removeSingleNodesRecur', {'match': [r'^callsite', r'^inv']}),
+                  ('(*tree.Tree).removeSingleNodesRecur', {'match': [r'^callsite', r'^inv', r'^store']}),
                   '(*tree.Node).ParentEdge', '(*tree.Tree).GraftTreeOnTip',
                   ('(*tree.Tree).tipEdgesRecur', {'match': [r'^post', r'^inv']}), ('(*tree.Tree).TipEdges', {'match': [r'^post', r'^inv']})],
     'trusted_base': TB_COMMON,
